@@ -469,6 +469,13 @@ def install(world: World):
         W.lcds.append(self)
 
     LCD.__init__ = lcd_init
+    real_glyph = LCD.glyph
+
+    def lcd_glyph(self, slot, bitmap):
+        real_glyph(self, slot, bitmap)
+        W.emit("GLYPH", W.lcds.index(self), int(slot), list(self.glyphs[int(slot)]))
+
+    LCD.glyph = lcd_glyph
 
     def snapshot_lcds():
         for idx, lcd in enumerate(W.lcds):
